@@ -80,9 +80,10 @@ func Services(g Generator, services map[string]*compile.ServiceSpec) error {
 func ServiceFunction(g Generator, s *compile.ServiceSpec, f *compile.FunctionSpec) error {
 	argsName := functionNamePrefix(s, f) + "Args"
 	argsGen := fieldGroupGenerator{
-		Namespace: NewNamespace(),
-		Name:      argsName,
-		Fields:    compile.FieldGroup(f.ArgsSpec),
+		Namespace:  NewNamespace(),
+		Name:       argsName,
+		Fields:     compile.FieldGroup(f.ArgsSpec),
+		IsEnvelope: true,
 		Doc: fmt.Sprintf(
 			"%v represents the arguments for the %v.%v function.\n\n"+
 				"The arguments for %v are sent and received over the wire as this struct.",
@@ -131,6 +132,7 @@ func ServiceFunction(g Generator, s *compile.ServiceSpec, f *compile.FunctionSpe
 		Fields:          resultFields,
 		IsUnion:         true,
 		AllowEmptyUnion: f.ResultSpec.ReturnType == nil,
+		IsEnvelope:      true,
 		Doc:             resultDoc,
 	}
 	if err := resultGen.Generate(g); err != nil {
